@@ -744,7 +744,7 @@ def linearize(form, fields, trials=None):
             new_I = integral(I.domain, dg_du)
             new_integrals.append(new_I)
 
-    bilinear_expr = reduce(add, new_integrals)
+    bilinear_expr = reduce(add, new_integrals, S.Zero)
     tests = form.variables
 
     return BilinearForm((trials, tests), bilinear_expr)
